@@ -542,9 +542,11 @@ class IRWithUses(ABC):
 _VALUE_NAME_PATTERN = re.compile(r"([A-Za-z_$.-][\w$.-]*)", re.ASCII)
 """Pattern to check if a name is valid for an SSAValue or Block."""
 
-_VALUE_NAME_SUFFIX_PATTERN = re.compile(r"(_\d+)+$", re.ASCII)
+_VALUE_NAME_SUFFIX_PATTERN = re.compile(r"(?:\d+_)+", re.ASCII)
 """
 This pattern is used to remove the numeric suffixes from an SSAValue or Block name.
+It is matched against the *reversed* name (anchored at its start, hence in linear time;
+searching for the suffix from every `_` is quadratic on names like `_1_1_1...x`).
 All of them are removed, so that a name hint never ends in `_<digits>` and the names
 `hint`, `hint_1`, ... generated by the printer cannot clash with another hint.
 """
@@ -591,9 +593,9 @@ class IRWithName(ABC):
                 r"Make sure names contain only characters of [A-Za-z0-9_$.-] and don't start with a number.",
             )
 
-        if match := _VALUE_NAME_SUFFIX_PATTERN.search(name):
+        if match := _VALUE_NAME_SUFFIX_PATTERN.match(name[::-1]):
             # Remove `_` followed by numbers at the end of the name
-            return name[: match.start()]
+            return name[: len(name) - match.end()]
 
         return name
 
